@@ -203,6 +203,7 @@ func (v *StructSchema) validate(ctx *p.SchemaCtx) {
 		subCtx.ValPtr = destPtr
 		subCtx.Path.Push(&fieldKey)
 		subCtx.DType = schema.getType()
+		subCtx.Exit = false
 		subCtx.CanCatch = false
 		p.VerifEmit("field", key, fieldKey, nil)
 		schema.validate(subCtx)
